@@ -60,6 +60,8 @@ var hostFuncs = map[string]interface{}{
 	"go/types.TypeString":       types.TypeString,
 	"go/types.ObjectString":     types.ObjectString,
 	"go/types.Identical":        types.Identical,
+	"go/types.ExprString":       types.ExprString,
+	"go/types.Eval":             types.Eval,
 	"go/types.Implements":       types.Implements,
 	"go/types.AssignableTo":     types.AssignableTo,
 	"go/types.Instantiate":      types.Instantiate,
@@ -291,6 +293,11 @@ func (p *path) toHost(v value, rt reflect.Type, quoteSafe bool) reflect.Value {
 			if i.t == nil {
 				return reflect.Zero(rt)
 			}
+			if c, isCell := i.v.(*value); isCell {
+				if rv, ok := p.hostOfCell(c); ok {
+					return rv
+				}
+			}
 			x := p.toAny(i, quoteSafe)
 			if x == nil {
 				return reflect.Zero(rt)
@@ -317,6 +324,9 @@ func (p *path) toHost(v value, rt reflect.Type, quoteSafe bool) reflect.Value {
 		case *value:
 			if x == nil {
 				return reflect.Zero(rt)
+			}
+			if rv, ok := p.hostOfCell(x); ok {
+				return rv // a syntax node imported by vfTypeCheck: give the original back
 			}
 			if h, ok := (*x).(host); ok && h.v == nil {
 				return reflect.New(rt.Elem()) // &T{} of a host struct type
